@@ -179,14 +179,18 @@ def errorOrLogNoLine (k : DK) : PM Unit := do
 def getTokenpos : PM Nat := do let s ← getState; pure s.pos
 def setTokenpos (p : Nat) : PM Unit := modifyState fun s => { s with pos := p }
 
-/-- `get_line_offset` -/
+def countNewlines (cs : List Char) : Nat := cs.foldl (fun n c => if c = '\n' then n + 1 else n) 0
+
+/-- `get_line_offset` (after the `fix:` commit: a comment token carries the line on which it starts, the offset of
+    the token behind it is measured from the comment's last line) -/
 def getLineOffset : PM Nat := do
   let e ← getEnv; let s ← getState
   if s.pos > 1 ∧ s.pos < e.toks.size then
     match e.toks[s.pos - 2]?, e.toks[s.pos - 1]? with
     | some prev, some cur =>
+      let prevLine := if prev.ty = 6 then prev.line + countNewlines prev.text else prev.line
       if prev.fileid = cur.fileid then
-        if cur.line < prev.line then panic else pure (cur.line - prev.line)   -- u32 subtraction
+        if cur.line < prevLine then panic else pure (cur.line - prevLine)   -- u32 subtraction
       else pure 2
     | _, _ => panic
   else
@@ -584,25 +588,14 @@ def applyPositionRestrictions (group : List TagInfo) : List TagInfo :=
   let restricted := group.filter (·.pos.isSome)
   if restricted.length > 1 then refill group (restricted.mergeSort posLe) else group
 
-def countNewlines (cs : List Char) : Nat := cs.foldl (fun n c => if c = '\n' then n + 1 else n) 0
-
-/-- the loop of `add_group` after sorting; `cl` = line breaks inside the previously written comment (after the
-    `fix:` commit the offset of the next item is reduced by it: that offset was measured from the comment's first line) -/
-def emitGroup (indent : Nat) : List TagInfo → Nat → List Char
-  | [], _ => []
-  | item :: rest, cl =>
-    if item.isComment then
-      if item.included then emitGroup indent rest cl
-      else
-        List.replicate (item.startOff - cl) '\n' ++ item.text ++ emitGroup indent rest (countNewlines item.text)
-    else
-      addWhitespace indent (item.startOff - cl) ++ (if item.isBlock then "/begin ".toList else []) ++ item.tag ++ item.text ++
-        (if item.isBlock then addWhitespace indent item.endOff ++ "/end ".toList ++ item.tag else []) ++
-        emitGroup indent rest 0
-
 /-- `add_group` (elements from include files are outside this model: `incfile = None` everywhere) -/
 def addGroup (indent : Nat) (group : List TagInfo) : List Char :=
-  emitGroup indent (applyPositionRestrictions (group.mergeSort tagLe)) 0
+  (applyPositionRestrictions (group.mergeSort tagLe)).flatMap fun item =>
+    if item.isComment then
+      if item.included then [] else List.replicate item.startOff '\n' ++ item.text
+    else
+      addWhitespace indent item.startOff ++ (if item.isBlock then "/begin ".toList else []) ++ item.tag ++ item.text ++
+        (if item.isBlock then addWhitespace indent item.endOff ++ "/end ".toList ++ item.tag else [])
 
 def symText (symbols : Array String) (i : Nat) : List Char := (symbols[i]?.getD "?").toList
 
